@@ -788,11 +788,13 @@ namespace awkward {
     if (identities_.get() != nullptr) {
       identities = identities_.get()->getitem_carry_64(carry);
     }
-    return std::make_shared<ByteMaskedArray>(identities,
-                                             parameters_,
-                                             nextmask,
-                                             content_.get()->carry(carry, allow_lazy),
-                                             valid_when_);
+    ByteMaskedArray out(identities,
+                        parameters_,
+                        nextmask,
+                        content_.get()->carry(carry, allow_lazy),
+                        valid_when_);
+    // a lazy carry may have wrapped the content in an IndexedArray
+    return out.simplify_optiontype();
   }
 
   int64_t
